@@ -234,14 +234,16 @@ InPool(rawcl) == rawcl \in DOMAIN pool
 Stored(raw, rawcl) == IF InPool(rawcl) THEN pool[rawcl] ELSE raw
 \* _is_mapper_created_duplicate: a new object, equal to the input, all of
 \* whose predecessors are identical to the input's
-IsCreatedDup(f, raw, rawcl) ==
-  ~InPool(rawcl) /\ raw # f.node /\ rawcl = ocl[f.node] /\ Same(f)
+\* (fsame: the function definitions the node refers to, which are not nodes
+\* of this name space, are identical too; TRUE where there are none)
+IsCreatedDup(f, raw, rawcl, fsame) ==
+  ~InPool(rawcl) /\ raw # f.node /\ rawcl = ocl[f.node] /\ Same(f) /\ fsame
 
-ReturnT(raw, rawcl, rawsig) ==
+ReturnT(raw, rawcl, rawsig, fsame) ==
   /\ err = "none" /\ stack # <<>> /\ V.family = "transform"
   /\ AllDone(Top)
   /\ LET f == Top IN
-     IF V.errdup /\ IsCreatedDup(f, raw, rawcl)
+     IF V.errdup /\ IsCreatedDup(f, raw, rawcl, fsame)
      THEN /\ err' = "dup"
           /\ UNCHANGED <<g, stack, cache, cexpr, pool, ocl, sig, calls, kcalls, uses, started>>
      ELSE /\ Store(f, Stored(raw, rawcl))
@@ -250,7 +252,7 @@ ReturnT(raw, rawcl, rawsig) ==
           /\ sig' = IF rawcl \in DOMAIN sig THEN sig ELSE (rawcl :> rawsig) @@ sig
           /\ UNCHANGED <<g, calls, kcalls, err, started>>
 
-ReturnTransform == stack # <<>> /\ LET pr == Predict(Top) IN ReturnT(pr.raw, pr.cl, pr.s)
+ReturnTransform == stack # <<>> /\ LET pr == Predict(Top) IN ReturnT(pr.raw, pr.cl, pr.s, TRUE)
 
 \* combine: the result is the set of classes of the nodes below (what
 \* DependencyMapper computes); walk: no result
